@@ -132,6 +132,15 @@ class PyModel:
                 out[int(doc.strip().split()[1])] = getattr(obj, name)
         return [out[i] for i in sorted(out)]
 
+    def _subarray_shape(self, t):
+        """shape that an array element of type t contributes as trailing axes (fixed vectors and fixed arrays), else ()"""
+        r = self.env.resolve(t)
+        if isinstance(r, Vec) and r.length is not None:
+            return (r.length,) + self._subarray_shape(r.inner)
+        if isinstance(r, Arr) and isinstance(r.dims, tuple) and all(l is not None for _, l in r.dims):
+            return tuple(l for _, l in r.dims) + self._subarray_shape(r.inner)
+        return ()
+
     # ---- python value -> neutral ----
     def neutral(self, t, v):
         res = self.env.resolve(t)
@@ -175,6 +184,8 @@ class PyModel:
                     return int(v.astype("datetime64[ns]").astype(np.int64))
                 return int(v.numpy_value.astype(np.int64))
         if isinstance(t, Opt):
+            if isinstance(v, np.void) and v.dtype.names == ("has_value", "value"):     # element of an array of optionals
+                return self.neutral(t.inner, v["value"]) if bool(v["has_value"]) else None
             return None if v is None else self.neutral(t.inner, v)
         if isinstance(t, Union):
             if v is None:
@@ -188,6 +199,12 @@ class PyModel:
             return [self.neutral(t.inner, x) for x in v]
         if isinstance(t, Arr):
             a = np.asarray(v)
+            sub = self._subarray_shape(t.inner)
+            if sub and a.dtype != object:
+                # elements that are fixed vectors / fixed arrays of numbers live in trailing axes of the NumPy array
+                outer = a.shape[:a.ndim - len(sub)]
+                flat = a.reshape((-1,) + tuple(a.shape[a.ndim - len(sub):]))
+                return ("a", tuple(int(s) for s in outer), [self.neutral(t.inner, x) for x in flat])
             return ("a", tuple(int(s) for s in a.shape), [self.neutral(t.inner, x) for x in a.reshape(-1)])
         if isinstance(t, Map):
             return [(self.neutral(t.key, k), self.neutral(t.value, x)) for k, x in v.items()]
